@@ -53,16 +53,16 @@ Fixpoint tree_sim (m r : tree) {struct r} : bool :=
 
 Record dcase := mkDC { dc_f : fcase; dc_expect : tree }.
 
-Definition run_dcase ftbl stmts decls dtbl (c : dcase) : tree * bool :=
+Definition run_dcase ftbl stmts decls du dtbl (c : dcase) : tree * bool :=
   let '(frs, err) := run_fcase ftbl stmts decls (dc_f c) in
   let att := link (map snd frs) in
-  (decorate dtbl att (fc_tree (dc_f c)), err || l_panic att).
+  (decorate du dtbl att (fc_tree (dc_f c)), err || l_panic att).
 
-Definition check_dcase ftbl stmts decls dtbl (c : dcase) : bool :=
-  let '(d, bad) := run_dcase ftbl stmts decls dtbl c in
+Definition check_dcase ftbl stmts decls du dtbl (c : dcase) : bool :=
+  let '(d, bad) := run_dcase ftbl stmts decls du dtbl c in
   negb bad && tree_sim d (dc_expect c).
 
-Definition bad_dcases ftbl stmts decls dtbl (cs : list dcase) : list nat := bad_idx (check_dcase ftbl stmts decls dtbl) 0 cs.
+Definition bad_dcases ftbl stmts decls du dtbl (cs : list dcase) : list nat := bad_idx (check_dcase ftbl stmts decls du dtbl) 0 cs.
 
 (* ---- tokens through the composed model --------------------------------------------------------- *)
 (* the byte lengths of the tokens, strings and bad spans the decorator emits for the go/ast tree,
@@ -84,8 +84,25 @@ From DV Require Import Model.Restore.
 Definition restore_token_lengths rtbl (d : tree) : list Z :=
   flat_map (fun a => match a with AAdv l => [l] | _ => [] end) (flatten rtbl false (fun _ => None) d).
 
-Definition tokens_ok ftbl stmts decls dtbl rtbl (c : dcase) : bool :=
-  let '(d, bad) := run_dcase ftbl stmts decls dtbl c in
+Definition tokens_ok ftbl stmts decls du dtbl rtbl (c : dcase) : bool :=
+  let '(d, bad) := run_dcase ftbl stmts decls du dtbl c in
   bad || list_eqb Z.eqb (restore_token_lengths rtbl d) (frag_token_lengths ftbl (fc_tree (dc_f c))).
 
-Definition bad_tokens ftbl stmts decls dtbl rtbl (cs : list dcase) : list nat := bad_idx (tokens_ok ftbl stmts decls dtbl rtbl) 0 cs.
+Definition bad_tokens ftbl stmts decls du dtbl rtbl (cs : list dcase) : list nat := bad_idx (tokens_ok ftbl stmts decls du dtbl rtbl) 0 cs.
+
+(* ---- the whole pipeline against Decorator + Restorer ------------------------------------------- *)
+From DV Require Import Model.RestoreCases.
+
+Record pcase := mkPC {
+  pc_f : fcase;
+  pc_base : Z; pc_lines : list Z; pc_size : Z;
+  pc_comments : list (N * list (Z * Z * N));
+  pc_pos : list (list (path * Z))              (* by go/ast node id - 1 *)
+}.
+
+Definition check_pcase ftbl stmts decls du dtbl rtbl (c : pcase) : bool :=
+  let '(d, bad) := run_dcase ftbl stmts decls du dtbl (mkDC (pc_f c) (Node 0 "" [] [] [] SNone SNone)) in
+  negb bad &&
+  check_rcase rtbl (mkRC d (pc_base c) false [] false (pc_lines c) (pc_size c) (pc_comments c) (pc_pos c)).
+
+Definition bad_pcases ftbl stmts decls du dtbl rtbl (cs : list pcase) : list nat := bad_idx (check_pcase ftbl stmts decls du dtbl rtbl) 0 cs.
